@@ -28,7 +28,11 @@ ID = 'C11'
 RULE = ("hand-written seed circuits (self-loop, 2/3-cycles, diamond, every harmless outcome, early "
         "initialisation with a loop back, malformed event types) + random event graphs over 1..4 blocks "
         "(probe blocks with scripted handlers a/b/need/ping – a quarter of their sends inside try/except that swallows the exception –, Input with/without initdef and allowed set, "
-        "Counter with/without modulo, OutputFunc with a returning/failing function and 0..2 on_success / 0..1 on_error "
+        "Counter with/without modulo, table-driven FSMs with 2..3 states, events e0/e1 with per-state and any-state "
+        "rules and 'no transition' targets, Goto, scripted entry/exit actions (entry actions may send the one "
+        "documented chained event to the FSM itself, two of them, or an endless chain), on_enter/on_exit/on_notrans/"
+        "on_output events with filters (a quarter of the first on_enter/on_exit events straight back to the FSM), "
+        "timed states with zero or positive duration whose expiry is delivered on the virtual loop (`tick`), OutputFunc with a returning/failing function and 0..2 on_success / 0..1 on_error "
         "events sent from inside its handler, a quarter of the first on_success events looping straight back), 0..2 on_output, 0..1 on_every_output and 0..2 explicitly sent "
         "events per block with random destination (self-loops, cycles, diamonds), event type (known, "
         "unknown, EventCond incl. nested and None branches), 0..2 filters; start-up of the circuit, "
@@ -39,8 +43,10 @@ ASSUMPTIONS = [
     "scripted handlers either propagate the exceptions of the events they send or swallow all of them "
     "(try/except Exception: pass around one send); OutputFunc catches only the exceptions of its function",
     "values are ints/bools, so that Counter arithmetic never sees a non-number",
-    "FSM chained transitions (the FSM-internal window, `_fsm_event_active/_next_event`) and Repeat are not "
-    "part of this model; the `_enable_event` mechanism itself is exercised through early initialisation",
+    "FSM: cond_EVENT callbacks, the `duration` data item, persistence and user-defined calc_output are not "
+    "modelled (the output is the state name); the event data item `sdata` is left out; timers fire one at a "
+    "time in the order the event loop delivers them (recorded from the implementation); Repeat is not part of "
+    "this model",
 ]
 EXHAUSTIVE = {'quick': False, 'thorough': False}
 
